@@ -11,6 +11,7 @@ import p_guards
 import p_mapped
 import p_effect
 import p_dynamic
+import p_segmentation
 
 VERIF = os.path.dirname(os.path.dirname(os.path.abspath(__file__)))
 
@@ -92,13 +93,17 @@ def _only(ctx, which):
 
 def rules_c01(ctx):
     S = p_search
+    G = p_segmentation
     return (S.rule_range_form(ctx, 'pgm', ctx.units) + S.rule_agree_eps(ctx, 'pgm', ctx.units) + S.rule_clamp(ctx, 'pgm', ctx.units) +
-            S.rule_kind_pgm(ctx, ctx.units) + S.rule_keydiff_type(ctx, ctx.units))
+            S.rule_kind_pgm(ctx, ctx.units) + S.rule_keydiff_type(ctx, ctx.units) +
+            [o for o in G.rule_rank_agree(ctx) if o.rule == 'RANK-AGREE'] + [o for o in G.rule_omp_order(ctx) if o.arm == 'last-chunk'] + G.rule_key_arith(ctx))
 
 
 def rules_c02(ctx):
     S = p_search
-    return S.rule_cap(ctx, 'pgm', ctx.units, fnames=('search', 'segment_for_key')) + [o for o in S.rule_range_form(ctx, 'pgm', ctx.units)]
+    return (S.rule_cap(ctx, 'pgm', ctx.units, fnames=('search', 'segment_for_key')) + [o for o in S.rule_range_form(ctx, 'pgm', ctx.units)] +
+            p_segmentation.rule_closing(ctx) + [o for o in p_segmentation.rule_rank_agree(ctx) if o.rule == 'GAP-GUARD' or o.arm in ('gap', 'closing')] +
+            p_segmentation.rule_key_arith(ctx) + [o for o in p_segmentation.rule_omp_order(ctx) if o.arm == 'last-chunk'])
 
 
 def rules_c07(ctx):
@@ -135,6 +140,7 @@ PROPS['C01'] = {
         'CLAMP: the raw key only feeds std::max(first_key, key); routing and model evaluation receive the clamped key',
         'KIND: every routing step of segment_for_key (EpsilonRecursive == 0, linear scan, binary search) ends in LAST_LE(key) and that result is returned',
         'TYPE: the key difference in Segment::operator() is evaluated in an unsigned, floating or wider-than-K type for every key type',
+        'RANK-AGREE: every constraint point fed to the builder is a key at its own index (first-occurrence rank) or one of the two successor points; the last chunk of the parallel builder ends at n; KEY-ARITH: no key-key difference in a signed same-width type',
     ],
     'not_decided': _SEARCH_ND,
     'explanation': 'Clause-level static claim for C01: five structural necessary conditions of "the first occurrence lies in the returned range", decided for every instantiated configuration of PGMIndex/MappedPGMIndex.',
@@ -144,6 +150,8 @@ PROPS['C02'] = {
     'decides': [
         'CAP: the position fed to the range arithmetic is std::min<size_t>(model of segment s at the clamped key, intercept of the successor of the same s), in search() and at every level of segment_for_key()',
         'N-CAP (part of RANGE-FORM): the upper end is capped by field n',
+        'CLOSING: make_segmentation adds the point (succ(in(n-1)), n) on every path on which the chunk ends the data, and the last chunk of the parallel builder ends at n; SENTINEL: build() terminates every level with (sentinel, 0, last_n)',
+        'GAP-GUARD / RANK-AGREE (successor points): after a run of duplicates the point (succ(in(i)), i) is added exactly when succ(in(i)) < in(i+1); KEY-ARITH: no key-key difference in a signed same-width type',
     ],
     'not_decided': _SEARCH_ND + '; the closing point/sentinel clauses are decided under C17/C03',
     'explanation': 'Clause-level static claim for C02: the cap that keeps gap queries from overshooting into the next segment and the cap of hi by n.',
@@ -283,4 +291,27 @@ PROPS['C15'] = {
     ],
     'not_decided': 'sortedness of the levels, capacity bounds, "no data beyond the used levels": history and arithmetic',
     'explanation': 'Clause-level static claim for C15 (the index-in-sync clause): a stale or missing per-level index is exactly the violation of the last clause of the property, while answers stay right for most keys.',
+}
+
+
+PROPS['C03'] = {
+    'level': 'other', 'rules': p_segmentation.rules_c03,
+    'decides': [
+        'NO-DROP: a point rejected by the builder is re-added (same x, y) after out(opt.get_segment()), under the false outcome only; the final out(opt.get_segment()) is on every path and outside any loop',
+        'RANK-AGREE: every add has one of three shapes: (in(e), e); gap point (succ(in(i)), i) guarded by succ(in(i)) < in(i+1) (GAP-GUARD, decided by normal form); closing point (succ(in(n-1)), n) - succ is +1 or nextafter(., +inf)',
+        'OMP-ORDER: inside the parallel region only chunk-private state, the reduction variable and results[i] are written; the caller\'s callback is neither used nor captured inside; it is invoked after the region in chunk order; the last chunk ends at n (proved by normal form, refuted by a concrete witness)',
+        'KEY-ARITH: no difference/sum of two keys is evaluated in a signed type of the key\'s width; GEOM-GUARDS: the two cut tests and the two hull-tightening tests of add_point are the strict comparisons of the algorithm',
+    ],
+    'not_decided': 'the epsilon bound itself: |line(x) - y| <= epsilon + rounding needs the exact geometry of the hull update and of get_floating_point_segment; no static argument in reach',
+    'explanation': 'Clause-level static claim for C03: no point is dropped, ranks are the keys\' indices, points and segments come out in order; the numeric bound is not claimed.',
+}
+PROPS['C04'] = {
+    'level': 'other', 'rules': p_segmentation.rules_c04,
+    'decides': [
+        'CUT-SITES: a segment is closed only under the false outcome of add_point or at the final flush; the driver never resets the builder',
+        'REJECT-ONLY-GEOMETRIC: `return false` of add_point depends only on the two cut comparisons (never on a counter, size or index)',
+        'GEOM-GUARDS: the cut tests are the strict comparisons p1-r[2] < r[2]-r[0] and p2-r[3] > r[3]-r[1] (a non-strict test cuts segments that could be extended), the tightening tests are strict likewise',
+    ],
+    'not_decided': 'that outside_line1/2 are exactly infeasibility (needs the convex-hull invariant), the segment-count bounds: value-level',
+    'explanation': 'Clause-level static claim for C04: any additional cut, or a rejection that depends on something other than the geometric test, yields a non-maximal segment for some input while every test still passes.',
 }
